@@ -916,12 +916,13 @@ fn main() {
     }
 
     // ---- family B: large n ----------------------------------------------------------------------------------------
-    let ns: [u32; 12] = [1, 2, 3, 99, 100, 101, 102, 499, 500, 501, 502, 600];
+    // quick keeps both sides of each threshold (n > 100, n > 500); thorough adds the second neighbours
+    let ns: Vec<u32> = run.tier.pick(vec![1, 2, 3, 100, 101, 500, 501, 600], vec![1, 2, 3, 99, 100, 101, 102, 499, 500, 501, 502, 600]);
     let shapes = [Shape::Ring, Shape::StarIn, Shape::StarOut, Shape::Chain, Shape::NoEdge, Shape::Clique];
     let clique_max = run.tier.pick(101, 501);
     let mut bases: Vec<Base> = Vec::new();
     for &shape in &shapes {
-        for &n in &ns {
+        for &n in ns.iter() {
             // cliques (n^2 statements): quick 1,2,3 and both sides of the n > 100 threshold (100, 101);
             // thorough additionally 99, 102 and both sides of the n > 500 threshold (500, 501)
             if shape == Shape::Clique && (n > clique_max || (run.tier == Tier::Quick && (n == 99 || n == 102)) || (n > 102 && n != 500 && n != 501)) {
